@@ -98,6 +98,13 @@ def run_case(case):
                         import snappy
                         body = snappy.compress(b"\x80")
                         d = b"\0" + struct.pack("<I", len(body))[:3] + body
+                    elif fault.startswith("plist:"):
+                        import plistlib
+                        d = {"xml-cut": b"<?xml version='1.0'?><plist><dict><key>fileFormatVersion</key>",
+                             "xml-badint": b"<?xml version='1.0'?><plist><dict><key>fileFormatVersion</key><integer>x</integer></dict></plist>",
+                             "no-key": plistlib.dumps({"other": 1}), "list": plistlib.dumps([1, 2]),
+                             "int-version": plistlib.dumps({"fileFormatVersion": 14}),
+                             "bin-no-key": plistlib.dumps({"other": 1}, fmt=plistlib.FMT_BINARY)}[fault[6:]]
                     elif fault == "drop":
                         continue
                 ms.append((n, d))
@@ -128,8 +135,15 @@ def main():
     ap.add_argument("--bases", type=int, default=1)
     a = ap.parse_args()
     bases = ["template"]
-    fx = [f for f in docsnap.fixtures() if os.path.isfile(f) and os.path.getsize(f) < 400000]
-    bases += fx[: max(0, a.bases - 1)]
+    if a.bases > 1:
+        common._quiet()
+        fx = []
+        for f in docsnap.fixtures():
+            if os.path.isfile(f) and os.path.getsize(f) < 400000 and docsnap.open_quiet(f)[0] is not None:
+                fx.append(f)
+            if len(fx) >= a.bases - 1:
+                break
+        bases += fx
     cases = []
     for b in bases:
         cases += [{"base": b, "kind": k} for k in ("missing", "suffix", "no-iwa", "not-zip", "encrypted")]
@@ -145,6 +159,9 @@ def main():
                 cases.append({"base": b, "kind": "member", "member": n, "fault": fault})
         for n in iwas[:3]:
             cases.append({"base": b, "kind": "encrypted", "damage": n})
+        for n in [x for x in names if x.endswith("Properties.plist")]:
+            for fault in ("plist:xml-cut", "plist:xml-badint", "plist:no-key", "plist:list", "plist:int-version", "plist:bin-no-key"):
+                cases.append({"base": b, "kind": "member", "member": n, "fault": fault})
     return common.run(cases, run_case)
 
 
